@@ -41,20 +41,21 @@ TriviaText == [
   bcom    |-> "/* b */",                \* block comment glued on both sides
   spbcom  |-> " /* b<U+00E9> */ ",      \* block comment with spaces around it, multi-byte text
   mlbcom  |-> "\n/* m\n   m */\n",      \* multi-line block comment on lines of its own
+  wsbcom  |-> "\n/* w\n \n      w\n    */\n",   \* ... with a whitespace-only line indented less than all other lines
   eofcom  |-> "// e",                   \* line comment without line end (only at end of file)
   bom     |-> "<U+FEFF>"                \* byte order mark (only at start of file)
 ]
 Kinds == DOMAIN TriviaText
 
 Separates(k) == k \notin {"none", "bom"}          \* the trivia keeps two word-like tokens apart
-EndsLine(k)  == k \in {"lf", "blank", "crlf", "lcom", "trail", "ownlcom", "detach", "mlbcom"}
-HasComment(k) == k \in {"lcom", "trail", "ownlcom", "detach", "bcom", "spbcom", "mlbcom", "eofcom"}
+EndsLine(k)  == k \in {"lf", "blank", "crlf", "lcom", "trail", "ownlcom", "detach", "mlbcom", "wsbcom"}
+HasComment(k) == k \in {"lcom", "trail", "ownlcom", "detach", "bcom", "spbcom", "mlbcom", "wsbcom", "eofcom"}
 
 (* kinds offered at an ordinary gap / at the two ends of the file *)
 GapKinds == {"none", "sp", "sp2", "tab", "ff", "lf", "lf3", "blank", "crlf", "lcom", "trail", "ownlcom", "detach",
-             "bcom", "spbcom", "mlbcom"}
-BOFKinds == {"bom", "lf", "blank", "ownlcom", "detach", "lcom", "bcom", "sp", "crlf"}
-EOFKinds == {"none", "blank", "crlf", "sp", "eofcom", "lcom", "trail", "ownlcom", "detach", "bcom", "mlbcom", "lf3"}
+             "bcom", "spbcom", "mlbcom", "wsbcom"}
+BOFKinds == {"bom", "lf", "blank", "ownlcom", "detach", "lcom", "bcom", "sp", "crlf", "wsbcom"}
+EOFKinds == {"none", "blank", "crlf", "sp", "eofcom", "lcom", "trail", "ownlcom", "detach", "bcom", "mlbcom", "wsbcom", "lf3"}
 
 (* ---- skeleton accessors: s is a token skeleton, i.e. a sequence of <<text, category, default gap kind>> ---- *)
 NTok(s) == Len(s)
@@ -133,7 +134,7 @@ KindCat(k) ==
     [] k = "ownlcom" -> "own-line"                        \* line comment on a line of its own
     [] k = "detach" -> "detached"                         \* ... with blank lines around it
     [] k \in {"bcom", "spbcom"} -> "inline-block"         \* block comment inside a line
-    [] k = "mlbcom" -> "own-block"                        \* multi-line block comment on lines of its own
+    [] k \in {"mlbcom", "wsbcom"} -> "own-block"                        \* multi-line block comment on lines of its own
     [] k = "eofcom" -> "eof-line"
     [] k = "bom" -> "bom"
 (* between: the gap separates two declarations of a file or of a declaration body (after `;`, after the `{` that
